@@ -53,7 +53,8 @@ NUMTEXT = ['3', '-3', '3.5']
 BADTEXT = ['abc', '', '\u00b2', '\u2460\u2082',      # incl. digit-like characters that are not decimal digits
            'inf', 'nan', '-Infinity', '1_000',          # ... and what only a programming language reads as a number
            '99999999999999999999 1', '1.2.99999999999',  # ... and what a lenient date reader chokes on
-           '1e999']                                      # ... and a spelling whose value no sheet can hold
+           '1e999',                                      # ... and a spelling whose value no sheet can hold
+           '1' * 29 + 'm', '2' * 40 + 'h']               # ... and digit runs with a unit letter (a date reader computes with them)
 DATES = [D(2019, 11, 20), D(2000, 2, 29), D(1900, 3, 1)]
 DATETIMES = [D(2019, 11, 20, 6, 0), D(2019, 11, 20, 18, 30, 15)]
 DATETEXT = ['2019-11-20', '2019-11-20T00:00:00Z']      # the second: ISO text with a zone designator (same wall-clock date)
@@ -573,7 +574,8 @@ class OneItem(Sub):
     name = 'c06.one_item'
     rule = ('a one-item array {a} against every array of 2..3 items over a 5-value pool, + and * in both orders (host lists and '
             'literals): x+y and y+x, x*y and y*x give the same outcome (commutativity; whether a one-item array broadcasts or is a '
-            'length mismatch is not fixed, but it cannot depend on the side); non-trivial = all')
+            'length mismatch is not fixed, but it cannot depend on the side); the empty list against lists of 0..3 items and scalars; '
+            'non-trivial = all')
     min_cases = 10
     min_nontrivial = 100
     POOL = [2, 0.5, -3, 'abc', None]
@@ -582,11 +584,27 @@ class OneItem(Sub):
         for a in range(len(self.POOL)):
             for n in (2, 3):
                 yield [a, n]
+        yield ['empty', 0]
 
     def check(self, env, case):
         ai, n = case
-        a = self.POOL[ai]
         out = []
+        if ai == 'empty':
+            # a list without items (a range without cells) on either side of lists of 0..3 items and of scalars
+            others = [[], [2], [[2]], [2, 0.5], ['abc', 2, -3], 2, 'abc', None]
+            for other in others:
+                for op in ('+', '*', '-', '/'):
+                    env.nt()
+                    vars_ = {'xa': [], 'xb': other}
+                    o1, o2 = env.evo('xa%sxb' % op, vars_), env.evo('xb%sxa' % op, vars_)
+                    if op in '+*' and o1 != o2:
+                        out.append(fail('xa%sxb = %r but xb%sxa = %r with xa = [], xb = %r (%s is commutative)' % (op, o1, op, o2, other, op),
+                                        o2, o1))
+                    if isinstance(other, list) and len(other) > 1 and not (o1 == ['e', '#VALUE!'] and o2 == ['e', '#VALUE!']):
+                        out.append(fail('[] %s %r gives %r and the other way round %r: arrays of unequal length (0 and %d), #VALUE! expected' % (
+                            op, other, o1, o2, len(other)), ['e', '#VALUE!'], o1))
+            return out[:4]
+        a = self.POOL[ai]
         for items in itertools.product(self.POOL[:4], repeat=n):
             for op in ('+', '*'):
                 env.nt()
@@ -700,7 +718,7 @@ class JoinRoundTrip(Sub):
     name = 'c06.join_round_trip'
     rule = ('a number or a date-time joined into text with & spells that value: ("" & x) used as a number again is x EXACTLY for 60 '
             'floats of 1..17 significant digits (sums of decimals, thirds, large and tiny magnitudes, adjacent doubles) and integers '
-            'to 2^63, so that "=" & MAX(xs) is a criterion that selects MAX(xs); DATEVALUE(d & "") = DATEVALUE(d) to half a '
+            'to 2^63 and of 4300 / 4301 / 5001 digits, so that "=" & MAX(xs) is a criterion that selects MAX(xs); DATEVALUE(d & "") = DATEVALUE(d) to half a '
             'millisecond for date-times with and without milliseconds; non-trivial = all')
     min_cases = 50
     min_nontrivial = 50
@@ -714,6 +732,7 @@ class JoinRoundTrip(Sub):
         v += [x * 1.0000000000000004 for x in (3.3, 77.7, 1e9 + 0.1)]
         v += [-x for x in v[:12]]
         v += [0, 1, -1, 2 ** 53, 2 ** 53 + 1, 2 ** 63 - 1, -2 ** 62, 10 ** 15, 10 ** 20 + 1, 123456789012345678]
+        v += [10 ** 4299 + 7, 10 ** 4300 + 7, -(10 ** 5000 + 1)]      # whole numbers of 4300, 4301 and 5001 digits join as their digits too
         return v
 
     def cases(self, tier, unit):
@@ -734,8 +753,10 @@ class JoinRoundTrip(Sub):
                                                            'MATCH(xa,xl,0)&"|"&COUNTIF(xl,"="&MAX(xl))').index(f)]
                 got = env.dec(o[1]) if o[0] == 'v' else None
                 if o[0] != 'v' or got != want or (isinstance(want, (int, float)) and isinstance(got, bool)):
-                    out.append(fail('%s with xa = %r, xl = [xa] gives %r, expected %r: the text & makes of a number must spell that number' % (
-                        f, x, o, want), enc(want), o))
+                    big = isinstance(x, int) and abs(x) >= 10 ** 400
+                    out.append(fail('%s with xa = %s, xl = [xa] gives %s, expected %s: the text & makes of a number must spell that number' % (
+                        f, ('a whole number of %d bits' % x.bit_length()) if big else repr(x), repr(o)[:200],
+                        'xa' if big and want is x else repr(want) if not big else want), enc(want), o if not big else [o[0], repr(o[1])[:100]]))
                     break
             return out
         t = datetime.datetime.fromisoformat(case[1])
